@@ -32,6 +32,7 @@ pub mod c19_raw;
 pub mod c19_rogue;
 pub mod c20;
 pub mod c20_nodes;
+pub mod c20_responses;
 
 pub fn lookup(id: &str) -> Option<PropFn> {
     Some(match id {
